@@ -196,3 +196,208 @@ class _:
                                                 S.byte_at(ghost.wire, j))),
         'consumes-exactly-the-payload': lambda socket, ghost, old: S.eq(socket.buf, S.slice(ghost.wire, old.self.payload_length, None)),
     }
+
+
+# ------------------------------------------------------------------------------------------ the TCP stream: WebSocketTemporaryHandler.__call__
+WSH = 'http_server.WebSocketTemporaryHandler'
+
+
+def frame_size(buf):
+    """specification: total size of the frame at the head of the byte string `buf`, or None when it is not complete
+    (RFC 6455: 2 header bytes, 0/2/8 bytes of extended length, 4 key bytes when masked, the payload) - as a pair (complete?, size)"""
+    n = S.len(buf)
+    l7 = S.byte_at(buf, 1) % 128
+    masked = S.byte_at(buf, 1) >= 128
+    have16 = n >= 4
+    have64 = n >= 10
+    plen = S.ite(l7 == 126, S.upk('H', S.slice(buf, 2, 4)), S.ite(l7 == 127, S.upk('Q', S.slice(buf, 2, 10)), l7))
+    hdr = S.ite(l7 == 126, 4, S.ite(l7 == 127, 10, 2)) + S.ite(masked, 4, 0)
+    header_known = (n >= 2) & S.implies(l7 == 126, have16) & S.implies(l7 == 127, have64)
+    size = hdr + plen
+    return header_known & (n >= size), size
+
+
+def make_handler(E, buf):
+    ip = E.ip
+    request = E.plain_obj(tag='request', chunked=1, write=E.opaque('request.write', returns=None))
+    sock = E.obj(RING, tag='socket', request=request, buf=buf)
+    endpt = E.plain_obj(tag='endpt', callback=E.opaque('endpt.callback', may_raise=True, returns=None))
+    rf = ip.call_function(ip.repo.func('http_server.readFrameFactory'), [sock], {})
+    wf = ip.call_function(ip.repo.func('http_server.writeFrameFactory'), [sock], {})
+    return E.obj(WSH, tag='self', _buffer=sock, _endpt=endpt, closed=E.bool('closed'), hostport=None, query=None, headers=None,
+                 uid=1, _readFrame=rf, _writeFrame=wf)
+
+
+def delivered(events):
+    return [e for e in events if e[0] == 'endpt.callback']
+
+
+def bytearray_decode(ip, b, enc, errors):
+    """utf-8 decoding of a text payload: raises or returns some string (the codec is not the subject here)"""
+    if ip.ctx.choose(2) == 1:
+        ip.ctx.raise_exc('UnicodeDecodeError')
+    return Sym(ip.ctx.fresh('text', z3.StringSort()), 'str')
+
+
+@contract(WSH + '._frameReady', props=['C18'])
+class _:
+    """True exactly when the frame at the head of the buffer has arrived completely (specification frame_size, from RFC 6455)"""
+    def setup(E):
+        return dict(self=make_handler(E, E.bytes('buffered')))
+    ensures = {'true-iff-a-complete-frame-is-buffered': lambda self, result: S.iff(result, frame_size(self._buffer.buf)[0])}
+    returns = 'bool'
+    modifies = []
+
+
+def framed_buffer(ip, v, name):
+    """the buffer at the head of an arbitrary iteration, in the only two forms a byte string can have: either it does not hold
+    a complete frame (opaque bytes; the loop condition decides), or it splits at the RFC's field boundaries into
+    2 header bytes | 0/2/8 bytes of extended length | 0/4 key bytes | payload | rest, the header bytes announcing exactly that
+    split (ASSUMED representation fact about byte strings: a string of sufficient length splits at given offsets)"""
+    from pyvc import libspec
+    ctx = ip.ctx
+    c = ctx.choose(7)
+    if c == 6:
+        t = ctx.fresh(name, BytesSort)
+        n = ctx.fresh(name + '_len', z3.IntSort())
+        ctx.assume(n >= 0)
+        ops.set_len_term(t, n)
+        ctx.assume(ops.bterm(S.Not(frame_size(Sym(t, 'bytes'))[0])))       # this form: no complete frame at the head
+        return Sym(t, 'bytes')
+    ext_n = (0, 2, 8)[c % 3]
+    key_n = (0, 4)[c // 3]
+    bv0, bv1 = ctx.fresh('byte0', z3.BitVecSort(8)), ctx.fresh('byte1', z3.BitVecSort(8))
+    b1 = z3.BV2Int(bv1)
+    l7 = b1 % 128
+    ctx.assume((b1 >= 128) == (key_n == 4))
+    chunks = [z3.Unit(bv0), z3.Unit(bv1)]
+    if ext_n:
+        e = ctx.fresh('ext', BytesSort)
+        ops.set_len(e, ext_n)
+        ctx.assume(z3.Length(e) == ext_n)
+        chunks.append(e)
+        code = 'H' if ext_n == 2 else 'Q'
+        plen = libspec.upk_fn(code)(e)
+        lo, hi = libspec.FIELD[code][1], libspec.FIELD[code][2]
+        ctx.assume(z3.And(plen >= lo, plen <= hi, libspec.pk_fn(code)(plen) == e))
+        ops.declare_bounds(plen, lo, hi)
+        ctx.assume(l7 == (126 if ext_n == 2 else 127))
+    else:
+        plen = l7
+        ctx.assume(l7 <= 125)
+    if key_n:
+        k = ctx.fresh('key', BytesSort)
+        ops.set_len(k, 4)
+        ctx.assume(z3.Length(k) == 4)
+        chunks.append(k)
+    pay = ctx.fresh('payload', BytesSort)
+    ops.set_len_term(pay, z3.simplify(plen))
+    rest = ctx.fresh('rest', BytesSort)
+    rn = ctx.fresh('rest_len', z3.IntSort())
+    ctx.assume(rn >= 0)
+    ops.set_len_term(rest, rn)
+    chunks += [pay, rest]
+    return Sym(ops.mk_concat(chunks), 'bytes')
+
+
+def chunk_appended(ip, frame, env):
+    """before the first frame is looked at, the buffer is the old remainder followed by the new chunk (nothing lost, nothing reordered)"""
+    ip.ctx.oblige('%s/loop@frames:init/buffer-is-the-remainder-followed-by-the-new-chunk' % ip.verifying_key,
+                  ops.bterm(S.eq(env['self'].attrs['_buffer'].attrs['buf'], ip.state.ghost['stream'])))
+
+
+def iteration_pre(ip, frame, env):
+    g = ip.state.ghost
+    g['buf_start'] = env['self'].attrs['_buffer'].attrs['buf']
+    g['ev_start'] = len(ip.state.events)
+
+
+def iteration_post(ip, frame, env):
+    """one iteration = one frame: exactly the bytes of the frame at the head of the buffer are consumed and exactly one
+    endpoint callback is made, for that frame (opcode from its first byte, payload = its payload bytes unmasked)"""
+    g = ip.state.ghost
+    key = ip.verifying_key
+    b0 = g['buf_start']
+    self = env['self']
+    complete, size = frame_size(b0)
+    now = self.attrs['_buffer'].attrs['buf']
+    ip.ctx.oblige('%s/loop@frames:iteration/consumes-exactly-the-frame-at-the-head' % key,
+                  ops.bterm(S.eq(now, S.slice(b0, size, None))))
+    ev = delivered(ip.state.events[g['ev_start']:])
+    ok = len(ev) == 1 and len(ev[0][1]) == 3 and ev[0][1][0] is self
+    ip.ctx.oblige('%s/loop@frames:iteration/one-callback-per-frame' % key, z3.BoolVal(ok))
+    if ok:
+        opcode, payload = ev[0][1][1], ev[0][1][2]
+        ip.ctx.oblige('%s/loop@frames:iteration/callback-carries-the-opcode-of-the-frame' % key,
+                      ops.bterm(S.eq(opcode.value, S.byte_at(b0, 0) % 16)))
+        if ops.pytype(payload) != 'str':          # (text payloads are decoded: the codec is not the subject)
+            j = env['j']
+            l7 = S.byte_at(b0, 1) % 128
+            hdr = S.ite(l7 == 126, 4, S.ite(l7 == 127, 10, 2))
+            plen = size - hdr - 4
+            pb = payload.val if hasattr(payload, 'val') else payload
+            ip.ctx.oblige('%s/loop@frames:iteration/callback-carries-the-unmasked-payload' % key, ops.bterm(
+                (S.len(pb) == plen) & S.implies((0 <= j) & (j < plen),
+                                               S.byte_at(pb, j) == S.xor8(S.byte_at(b0, hdr + 4 + j), S.byte_at(b0, hdr + j % 4)))))
+
+
+def replay_stream(label, model):
+    """the counter-models say: a chunk ending inside a frame is parsed anyway / a second complete frame stays buffered.
+    Natively: three masked text frames, delivered (a) in one read, (b) cut at every position into two reads"""
+    return '''
+import sys
+from mpgameserver.http_server import WebSocketFrame, WebSocketTemporaryHandler, WebSocketTemporaryRingBuffer
+def wire(msg):
+    f = WebSocketFrame.Text(msg); f.flags.mask = 1; f.masking_key = b"\\x09\\x08\\x07\\x06"
+    body = bytes(b ^ f.masking_key[i % 4] for i, b in enumerate(f.payload))
+    return f.serializeHeader() + f.serializeDataHeader() + body
+class Endpoint:
+    def __init__(self): self.got = []
+    def callback(self, handler, opcode, payload): self.got.append(payload)
+msgs = ["one", "two", "three" * 50]
+stream = b"".join(wire(m) for m in msgs)
+bad = []
+for cut in [None] + list(range(1, len(stream))):
+    ep = Endpoint()
+    h = WebSocketTemporaryHandler(("h", 1), {}, {}, WebSocketTemporaryRingBuffer(None), ep)
+    try:
+        if cut is None:
+            h(stream)
+        else:
+            h(stream[:cut]); h(stream[cut:])
+    except Exception as e:
+        bad.append((cut, "exception %r" % (e,)))
+        continue
+    if ep.got != msgs:
+        bad.append((cut, "delivered %r" % ([m[:12] for m in ep.got],)))
+for b in bad[:5]:
+    print("cut at", b[0], "->", b[1])
+print("%d of %d ways of cutting the stream do not deliver the three frames exactly once, in order" % (len(bad), len(stream)))
+sys.exit(1 if bad else 0)
+'''
+
+
+@contract(WSH + '.__call__', props=['C18'])
+class _:
+    replay = replay_stream
+    """however the TCP stream is cut: a call with ANY buffered remainder and ANY new chunk first appends the chunk, then hands
+    to the endpoint the frames that are complete, one per iteration, each consuming exactly its own bytes from the head of the
+    buffer (so frames come in stream order, each once, and the buffer always holds the unconsumed suffix of the stream); it
+    stops only when no complete frame is left; a partial frame is never parsed (call-site precondition of readData)."""
+    def setup(E):
+        buf0 = E.bytes('buffered')
+        data = E.bytes('data')
+        E.ghost('stream', S.concat(buf0, data))
+        return dict(self=make_handler(E, buf0), data=data)
+    skolems = {'j': 'int'}
+    loops_optional = True
+    hooks = {'bytes.decode': bytearray_decode, 'bytearray.decode': bytearray_decode}
+    # (_frameReady is executed inline here - it is also verified on its own against the specification frame_size)
+    uses = ['http_server.WebSocketFrame.readData']
+    loops = {0: LoopSpec(label='frames', invariant={}, havoc=['self._buffer.buf', 'self.closed', 'self._buffer.request.chunked'],
+                         havoc_kinds={'self._buffer.buf': framed_buffer}, ghost_init=chunk_appended,
+                         ghost_pre=iteration_pre, ghost_post=iteration_post)}
+    ensures = {
+        'no-complete-frame-is-left-waiting': lambda self: S.Not(frame_size(self._buffer.buf)[0]),
+    }
+    may_raise = ['Exception']
